@@ -1038,14 +1038,15 @@ theorem save_layout (o : Obj) (os : OStream) (r : SaveRes) (h : save o os = .ok 
       r.obj.segs = res.segs ∧ r.obj.curPos = res.shoff ∧
       r.obj.secs = (residentForSave o.cls o.trans res.secs { st := (preSave o).stream } []).1 := by
   unfold save at h
+  simp only [save_phoff_toNat, save_shoff0_toNat] at h
   cases hh : o.hdr with
   | none =>
     rw [hh] at h
-    simp only [pure, Except.pure, Except.ok.injEq] at h
+    simp only [save_entry_refused_none, if_true, pure, Except.pure, Except.ok.injEq] at h
     subst h; exact absurd hok (by simp)
   | some hdr =>
     rw [hh] at h
-    simp only at h
+    simp only [save_entry_refused_some] at h
     by_cases hf : os.fail = true
     · simp only [hf, if_true, pure, Except.pure, Except.ok.injEq] at h
       subst h; exact absurd hok (by simp)
@@ -2070,7 +2071,7 @@ theorem orderFront_go_perm (n i ns : Nat) (wl out : Array Seg) (fuel : Nat)
           | some sn =>
             rw [hn] at h
             simp only at h
-            cases hn2 : wl[if (sn.offset == 0) = true then ns + 1 else ns]? with
+            cases hn2 : wl[if save_gos_slot_zero sn.offset = true then ns + 1 else ns]? with
             | none => rw [hn2] at h; simp [throw, throwThe, MonadExceptOf.throw] at h
             | some sn2 =>
               rw [hn2] at h
@@ -3047,14 +3048,15 @@ theorem save_stream (o : Obj) (os : OStream) (r : SaveRes) (h : save o os = .ok 
           ((os.seekp (trApply o.trans 0)).write hdrF)) ∧
       r.os.fail = false := by
   unfold save at h
+  simp only [save_phoff_toNat, save_shoff0_toNat] at h
   cases hh : o.hdr with
   | none =>
     rw [hh] at h
-    simp only [pure, Except.pure, Except.ok.injEq] at h
+    simp only [save_entry_refused_none, if_true, pure, Except.pure, Except.ok.injEq] at h
     subst h; exact absurd hok (by simp)
   | some hdr =>
     rw [hh] at h
-    simp only at h
+    simp only [save_entry_refused_some] at h
     by_cases hf : os.fail = true
     · simp only [hf, if_true, pure, Except.pure, Except.ok.injEq] at h
       subst h; exact absurd hok (by simp)
